@@ -52,7 +52,11 @@ class Property:
         return toks[:2], toks[2:]
 
     def model_args(self, profile):
-        return [profile]
+        return ["release" if profile == "release" else "debug"]
+
+    def cases_for(self, profile, cases):
+        """the cases that make sense for a harness build profile (default: all)"""
+        return cases
 
     def project(self, line):
         """The part of an output line this property is about (applied to both sides before they are compared)."""
@@ -148,7 +152,11 @@ def run_property(P, tier, seed, replay=None):
     obligations += 1     # the correspondence
     can_run = "model" in exes and all(("impl_" + p) in exes for p in P.profiles)
     if can_run and cases:
+        all_cases = cases
         for prof in P.profiles:
+            cases = P.cases_for(prof, all_cases)
+            if not cases:
+                continue
             impl, model = execute(P, cases, prof, exes)
             evaluations += len(cases)
             for c, a, b in zip(cases, impl, model):
@@ -171,6 +179,7 @@ def run_property(P, tier, seed, replay=None):
                 dist = P.distribution(cases, impl)
                 step = max(1, len(cases) // 5)
                 samples = [{"case": cases[i], "impl": impl[i], "model": model[i]} for i in range(0, len(cases), step)][:6]
+        cases = all_cases
         if not corr_diffs and not violations:
             discharged += 1
     elif not cases:
